@@ -184,6 +184,39 @@ func VH_tcp() {
 	vapi.Log("tcp", w.handlers, w.fallback, w.conn.timeouts)
 }
 
+type pass struct{ w *world }
+
+func (p pass) Handle(cx *layer4.Connection, next layer4.Handler) error {
+	vapi.Cover("non-terminal route ran")
+	vapi.Assert(p.w.conn.deadline.IsZero(), "a matched route's handler runs with the matching deadline still armed")
+	return next.Handle(cx)
+}
+
+// VH_tcp_after_match: a first route matches at once and passes the connection
+// on; the next route stays undecided and the client goes silent: matching must
+// still end at start + timeout (the deadline is armed again for every round).
+func VH_tcp_after_match() {
+	w := &world{}
+	to := timeouts()
+	w.conn = &timedConn{D: vapi.Bytes("D", vapi.Param("L", 3000)), timeout: to, maxReads: vapi.Param("ROUNDS", 3)}
+	rl := layer4.RouteList{
+		layer4.VerifNewRoute(nil, []layer4.NextHandler{pass{w}}),
+		layer4.VerifNewRoute([]layer4.MatcherSet{{hungry{vapi.Int("need", 1, 4000)}}}, []layer4.NextHandler{term{w}}),
+	}
+	h := rl.Compile(zap.NewNop(), to, fb{w})
+	cx := layer4.WrapConnection(w.conn, make([]byte, 0, layer4.VerifPrefetchChunkSize), zap.NewNop())
+	w.conn.cx = cx
+	t0 := vapi.Elapsed()
+	err := h.Handle(cx)
+	el := time.Duration(vapi.Elapsed() - t0)
+	vapi.Assert(err == nil, "Handle returned an error")
+	vapi.Assert(el <= to, "matching outlived its deadline after an earlier route had matched")
+	if w.handlers == 0 && w.fallback == 0 {
+		vapi.Cover("matching timed out")
+		vapi.Assert(w.conn.timeouts > 0 && el == to, "matching ended without a handler although the timeout had not elapsed")
+	}
+}
+
 // VH_server: Server.handle closes the connection whatever way matching ends.
 func VH_server() {
 	w := &world{}
@@ -234,6 +267,25 @@ func VH_udp_deadline() {
 	}
 }
 
+// VH_udp_rearm: a deadline that is replaced by a later one (nested matching after
+// some delay) fires at the later instant - not at the first one, not at the idle timeout.
+func VH_udp_rearm() {
+	to := timeouts()
+	closeCh := make(chan string, 10)
+	pc := layer4.VerifNewPacketConn(nullPC{}, &net.UDPAddr{IP: net.IP{10, 0, 0, 2}, Port: 5353}, closeCh)
+	t0 := vapi.Elapsed()
+	_ = pc.SetReadDeadline(time.Now().Add(to))
+	gap := to / 2
+	vapi.Advance(gap)
+	_ = pc.SetReadDeadline(time.Now().Add(to)) // now due at t0 + gap + to
+	_, err := pc.Read(make([]byte, 16))
+	el := time.Duration(vapi.Elapsed() - t0)
+	vapi.Cover("udp read timed out")
+	vapi.Assert(err == os.ErrDeadlineExceeded, "a read on a silent UDP connection with an armed deadline must time out")
+	vapi.Assert(el >= gap+to, "the replaced UDP deadline fired early")
+	vapi.Assert(el <= gap+to+time.Microsecond, "the replaced UDP deadline fired late")
+}
+
 // VH_udp_data: data that is already queued is delivered even with a deadline armed.
 func VH_udp_data() {
 	to := timeouts()
@@ -253,6 +305,7 @@ func VH_udp_data() {
 func init() {
 	for name, f := range map[string]func(){
 		"VH_tcp": VH_tcp, "VH_server": VH_server, "VH_udp_deadline": VH_udp_deadline, "VH_udp_data": VH_udp_data,
+		"VH_tcp_after_match": VH_tcp_after_match, "VH_udp_rearm": VH_udp_rearm,
 	} {
 		vapi.Register("c05."+name, f)
 	}
